@@ -149,6 +149,20 @@ def prepare(model: str = "real") -> None:
 
         StateSpace.cap_result_at_unknown = lambda self: None
 
+    # -- never "short-circuit" calls to CrossHair's patched builtins (repr, hash, ...): with probability 0.3 per call
+    #    CrossHair replaces the call by a fresh symbolic return value (to be reconciled later), which forks the
+    #    path tree at every repr()/hash() in the code under test and turns concrete strings into symbolic ones.
+    import crosshair.core as _cc
+
+    _orig_consider = _cc.consider_shortcircuit
+
+    def _never_shortcircuit(fn, sig, bound, subconditions, allow_interpretation):
+        if allow_interpretation:
+            return None
+        return _orig_consider(fn, sig, bound, subconditions, allow_interpretation)
+
+    _cc.consider_shortcircuit = _never_shortcircuit
+
     # -- int(symbolic float): truncate in SMT instead of realising (real model only)
     try:
         src = inspect.getsource(bl._int)
@@ -499,3 +513,4 @@ def functions_entered(fn, kwargs: Dict[str, Any]) -> List[str]:
     finally:
         sys.setprofile(None)
     return sorted(s for s in seen if not s.endswith(":<module>") and "<" not in s.split(":")[1])
+
